@@ -66,6 +66,13 @@ impl MqttSink {
         self.0.close();
     }
 
+    #[cfg(ntex_mqtt_verif)]
+    #[doc(hidden)]
+    /// Verification hook: position the packet-id counter (next auto id is `val + 1`).
+    pub fn verif_set_next_id(&self, val: u16) {
+        self.0.verif_set_next_id(val);
+    }
+
     #[inline]
     /// Force close mqtt connection. mqtt dispatcher does not wait for uncompleted
     /// responses, but it flushes buffers.
